@@ -200,4 +200,13 @@ def St.renameUser (s : St) (from_ to : Bytes) : M St := do
     let cs ← renameLoop from_ to user.chans s.channels
     .ok { s with users := users, channels := cs }
 
+/-- `Source.Equals` (both non-nil): RFC 1459 case-insensitive on the name, exact on ident and host. -/
+def sourceEquals (a b : Source) : Bool := fold a.name == fold b.name && a.ident == b.ident && a.host == b.host
+
+/-- `UserPerms.Lookup(channel)` -/
+def User.permsLookup (u : User) (channel : Bytes) : Option Perms := AMap.get? u.perms (fold channel)
+
+/-- `Client.IsInChannel` -/
+def St.isInChannel (s : St) (channel : Bytes) : Bool := AMap.contains s.channels (fold channel)
+
 end Girc.Model
